@@ -60,13 +60,15 @@ def extra(res, rnd, cases):
     res.extra['merged_vs_solo_views'] = n
 
 
-def sink_sequences(res, rnd):
+def sink_sequences(res, rnd, with_cmds=False, what='open/message/close sequence on the connection-id interface differs from the model',
+                   theorem='C04_open_is_fresh / C04_isolation', n_quick=250, n_thorough=8000):
     """open/message/close sequences on the connection-id interface (ConnectionIDSink) driven directly:
-    re-opening a live id, messages right after a re-open, closing unknown ids, messages to closed ids"""
+    re-opening a live id, messages right after a re-open, closing unknown ids, messages to closed ids;
+    with_cmds: `connection NAME` / `list ...` commands in between (connections that are open but have no message yet)"""
     import common
     import implenv
     import implgdb_free as ig
-    n = 250 if res.tier == 'quick' else 8000
+    n = n_quick if res.tier == 'quick' else n_thorough
     cases = []
     for _ in range(n):
         ids = ['x', 'y', 'z'][: rnd.choice([1, 2, 3])]
@@ -78,6 +80,10 @@ def sink_sequences(res, rnd):
         for _k in range(rnd.choice([6, 15, 30])):
             i = rnd.choice(ids)
             r = rnd.random()
+            if with_cmds and rnd.random() < 0.3:
+                evs.append(['cmd', rnd.choice(['connection A', 'connection B', 'connection C', 'connection', 'list', 'list ~ 2', 'list wl_display',
+                                               'list ! wl_display ~ 1', 'c B', 'l'])])
+                continue
             if r < 0.15:
                 evs.append(['close', i])
                 is_open[i] = False
@@ -132,12 +138,12 @@ def sink_sequences(res, rnd):
             continue
         diffs = [d for d in sessioncheck.diff_final(m[2], ifinal)] if not bad else []
         if bad or diffs:
-            res.disagree('open/message/close sequence on the connection-id interface differs from the model', c['events'], None,
+            res.disagree(what, c['events'], None,
                          bad or diffs[0][1][:1500], sig={'category': 'sink-interface', 'detail': (bad or diffs[0][0])[:200]},
-                         theorem='C04_open_is_fresh / C04_isolation')
+                         theorem=theorem)
         else:
             res.nontriv(('sink', repr(c['events'])))
-    res.extra['sink_interface_sequences'] = len(cases)
+    res.extra['sink_interface_sequences' + ('_with_commands' if with_cmds else '')] = len(cases)
 
 
 def world_lane(rnd):
